@@ -72,6 +72,25 @@ def histories(rng, n):
     return out
 
 
+def write_targets():
+    """every kind of thing a subscript write / rock / roll / mutation can be aimed at: a variable, a pronoun (also through
+    nested subscripts), an unbound name, and the things that are not writable (literals, calls, pops, expressions)"""
+    pre = "Gimme takes V\ngive back V\n\nrock Arr with 1, 2, 3\nput 7 into Num\nput \"str\" into Str\n"
+    targets = ["Arr", "it", "Fresh", "Num", "Str", "5", "\"lit\"", "mysterious", "Gimme taking Arr", "roll Arr", "Arr at 0", "it at 1", "Arr at 0 at 1",
+               "Fresh at \"k\" at 2", "Num at 0", "Str at 0", "5 at 0", "\"lit\" at 0", "Gimme taking Arr at 0", "roll Arr at 0", "it at it", "Arr at it"]
+    forms = ["let {T} at 0 be 9", "let {T} at \"k\" at 1 be 9", "let {T} be 9", "put 9 into {T} at 2", "rock {T} with 8", "rock {T}", "roll {T}", "roll {T} into Out",
+             "build {T} up", "knock {T} down", "cut {T}", "join {T}", "cast {T}", "turn up {T}", "listen to {T} at 0", "let {T} be with 1", "{T} at 0 is 5"]
+    out = []
+    for t in targets:
+        for f in forms:
+            if " at 0" in f and " at " in t and f.startswith("build"):
+                continue
+            st = f.replace("{T}", t)
+            for last in ("put Arr into Last\n", "put Num into Last\n"):
+                out.append({"src": pre + last + st + "\nsay Arr\nsay Arr at 0\nsay Num\nsay Str\nsay Last\nsay it\n", "stdin": "in\n", "meta": f"write target `{st}`"})
+    return out
+
+
 def run(chk):
     proved = setup(chk, "C06")
     rng = rng_for(chk, 6)
@@ -97,6 +116,7 @@ def run(chk):
         chk.distinct.add((cid[:2], " ".join(r.split(" ")[:2]) if r.startswith("err") else r[:40]))
     cases = [{"src": c["src"], "meta": c.get("note")} for c in corpus_cases("exec")]
     cases += histories(rng, 300 if quick else 4000)
+    cases += write_targets()
     recs = execsuite.run(chk, cases, "hist", suite_name="EXEC-array-histories")
     record_exec(chk, recs, sig=lambda r: (r["impl"].get("debug", "")[:120],))
     gen = exec_cases(chk, 200 if quick else 2000, focus={"array": 8, "mutation": 2, "func": 2}, salt=66)
@@ -105,5 +125,6 @@ def run(chk):
     chk.rule = ("VAL: index / index-write / rock / roll / print on every array of U (with dictionaries in different insertion orders) "
                 "x every key kind, plus out-of-budget indices; EXEC: operation histories over up to four variables copied from one "
                 "another by assignment, storing into another array and passing to a function that mutates its parameter, then "
-                "mutated in random order and printed; distinct = outputs")
+                "mutated in random order and printed; 22 write targets (variable, pronoun, unbound, scalars, literals, calls, pops, nested "
+                "subscripts, pronoun subscripts) x 17 writing statement forms; distinct = outputs")
     conclude(chk, "C06", proved)
